@@ -30,6 +30,7 @@ import itertools
 import json
 import random
 
+from bcheck import history
 from bcheck.common import Collector, args, run_sharded, call
 from bcheck.ref_url import Rec, build, parse, urlsplit_agrees, Families
 
@@ -307,6 +308,8 @@ def random_worker(job):
 def main():
     a = args("C13")
     col = Collector("C13", a.tier, a.seed)
+    if a.replay and history.replayed(a, col, "C13"):
+        return
     if a.replay:
         rp = json.load(open(a.replay))
         inp = rp["input"]
@@ -366,6 +369,7 @@ def main():
                 "distinct_nontrivial = distinct (antecedent-true) pair shapes: (forward antecedent, converse antecedent, flag, host relation, "
                 "path relation, u's host, query/fragment presence on u and v, u without empty segment) + antecedent-true shapes per random group"
                 % (n, len(SCHEMES), len(PORTS), len(hosts), len(paths), len(qfs), 2 * n * n, 16 * ngroups))
+    history.run(col, "C13", a.tier == "quick")
     col.dump(a.out)
 
 
